@@ -7,7 +7,7 @@ from lib import core
 from lib.core import cz, czl
 from harness import common, sess
 
-THEOREMS = ['C13_generator_range', 'C13_default_range', 'C13_fresh_number', 'C13_generators_only_advanced', 'C13_at_most_once',
+THEOREMS = ['C13_generator_range', 'C13_default_range', 'C13_fresh_number', 'C13_generators_only_advanced', 'C13_resumed_numbers_are_fresh', 'C13_at_most_once',
             'C13_attribution_sound', 'C13_store_keyed_invariant', 'C13_unmatched_attributes_nothing', 'C13_other_type_leaves_request',
             'C13_no_keyerror', 'C13_nonvacuous']
 IMPORTS = ['AV.Model.Base', 'AV.Model.Seq']
@@ -492,6 +492,47 @@ def run(ctx):
                 if outs[i] == outs[j]:
                     ctx.violation(f'generator({mn},{mx}) repeated {outs[i]} within one period', {'function': 'next_sequence', 'input': [mn, mx, cur]})
     ctx.count('generator_triples', len(triples))
+    # ---- the generator of a new ESME on a correlator that still knows requests (restart on persisted stores)
+    from harness import sess as _sess
+    from aiosmpplib.correlator import SimpleCorrelator as _SC
+    from aiosmpplib.protocol import SubmitSm as _SM, EnquireLink as _EL
+    from aiosmpplib.state import PhoneNumber as _PN
+    resume_cases = []
+    for j in range(60 if ctx.thorough else 20):
+        corr = _SC('c13r')
+        stored = []
+        for _ in range(rng.choice([0, 0, 1, 2, 5])):
+            n = rng.choice([rng.randint(1, 50), rng.randint(1, 0x7FFFFFFF), 0x7FFFFFFF - rng.randint(0, 3)])
+            m = _SM(short_message='x', source=_PN('1'), destination=_PN('2'), log_id='r%d' % n)
+            m.sequence_num = n
+            where = rng.choice(['store', 'segment', 'delivery'])
+            if where == 'store':
+                corr._store[str(n)] = (0.0, m if rng.random() < 0.7 else _EL(sequence_num=n))
+            elif where == 'segment':
+                corr._segment_store[str(n)] = ('7/%d' % n, 1)
+            else:
+                corr._delivery_store['id%d' % n] = (0.0, m)
+            stored.append(n)
+        esme, _h = _sess.make_esme(correlator=corr)
+        g = esme.sequence_generator
+        outs = [g.sequence_num] + [g.next_sequence() for _ in range(3)]
+        ctx.case(('resume', tuple(stored)), nontrivial=bool(stored))
+        if any(o in stored for o in outs[1:]) and max(stored) + 3 <= 0x7FFFFFFF:
+            ctx.violation(f'a new ESME on a correlator that still knows the sequence numbers {stored} hands out {outs[1:]}',
+                          {'function': 'resume', 'stored': stored})
+        resume_cases.append((f'(1, 2147483647, {czl(stored)})', czl(outs)))
+    if proved or not getattr(ctx, 'build_failing', None):
+        bad, errs = core.run_cases('C13', 'resume', IMPORTS + ['AV.Model.Resume'], 'fun p : Z * Z * list Z => ser_resume (fst (fst p)) (snd (fst p)) (snd p)',
+                                   resume_cases, shard=200)
+        for fnm, out in errs:
+            ctx.broken.append(f'model evaluation failed ({fnm}): {out[-600:]}')
+        for i in bad[:5]:
+            inp, exp = resume_cases[i]
+            ctx.violation('model and implementation disagree on where a new ESME continues its sequence numbers', {
+                'correspondence': 'Model/Resume.v vs ESME.__init__ / SimpleCorrelator.last_sequence_num', 'input_term': inp, 'implementation_result': exp},
+                found_input=False)
+        ctx.extra['correspondence_resume_cases'] = len(resume_cases)
+        ctx.extra['correspondence_resume_disagreements'] = len(bad)
     # ---- matching histories through the real ESME
     hist_cases = []
     nh = 6000 if ctx.thorough else 250
